@@ -62,6 +62,15 @@ def gen_case(seed, i):
             case["tclass"] = t[2]
         case["out_file"] = rng.random() < 0.3
         case["fmt"] = rng.choice(["default", "json", "csv", "fdupes"])
+        prog = (cfg.get("transform") or "").split(" ")[0]
+        if prog in ("cat", "cp", "head", "true", "truncate") and rng.random() < 0.4:
+            cfg["knobs"] = {}
+            # two big duplicates (17 MiB): temp-file placement, copy strategy or read-ahead may depend on a size
+            # threshold; only with cheap programs and the shipped buffer sizes (the seam traces every read)
+            n = 17 * 2**20 + 5
+            world.entries.append({"t": "f", "p": roots[0] + "/big1", "c": {"zeros": n}})
+            world.entries.append({"t": "f", "p": roots[-1] + "/big2", "c": {"zeros": n}})
+            case["world"] = world.to_json()
     else:
         case["kind"] = "dryrun"
         cfg["cache"] = False
